@@ -196,7 +196,8 @@ impl<T: El> Interp<T> {
 
 pub fn run_case(c: &Case) {
   use crate::classes::*;
-  std::panic::set_hook(Box::new(|_| unsafe {
+  std::panic::set_hook(Box::new(|_i| unsafe {
+    if std::env::var_os("HARNESS_PANICMSG").is_some() { eprintln!("{}", _i); }
     if elem::IN_OP {
       alloc::WINDOW = true;
     }
